@@ -466,8 +466,10 @@ def _hx_obs(G, nodes, its):
     from synkit.Graph.Hyrogen._misc import h_to_explicit, h_to_implicit
     e = h_to_explicit(G, nodes, its)
     i0 = h_to_implicit(G)
-    return [[[gr_obs(e), gr_obs(h_to_implicit(e)), gr_obs(i0)], _total_h(G), _total_h(e), _total_h(i0), _py_h_dom(G), True],
-            True, all(d.get("element") != "H" for _, d in G.nodes(data=True)), all(d.get("typesGH") is None for _, d in G.nodes(data=True))]
+    from synkit.Graph.Hyrogen._misc import has_XH, has_HH
+    return [[[[gr_obs(e), gr_obs(h_to_implicit(e)), gr_obs(i0)], _total_h(G), _total_h(e), _total_h(i0), _py_h_dom(G), True],
+             True, all(d.get("element") != "H" for _, d in G.nodes(data=True)), all(d.get("typesGH") is None for _, d in G.nodes(data=True))],
+            bool(has_XH(G)), bool(has_HH(G)), bool(has_XH(e)), bool(has_XH(i0))]
 
 
 def impl(case):
@@ -544,7 +546,7 @@ def coq_case(case):
             return "run_extract %s" % clist([enc_str(l) for l in case["labels"]])
         if k == "hx":
             nodes = case["nodes"]
-            return "run_hx3 %s %s %s" % (enc_gr(case["g"]), copt(None if nodes is None else clist([cN(n) for n in nodes])),
+            return "run_hx4 %s %s %s" % (enc_gr(case["g"]), copt(None if nodes is None else clist([cN(n) for n in nodes])),
                                         cbool(case["its"]))
         if k == "mol":
             g = mol_graph(case["smiles"])
@@ -553,7 +555,7 @@ def coq_case(case):
             rec = mol_record(case["smiles"])
             if rec is None:
                 return None
-            return "(let m := %s in L [run_hx3 %s None false; L [%s]; tbool (rdmol_ok m)])" % (
+            return "(let m := %s in L [run_hx4 %s None false; L [%s]; tbool (rdmol_ok m)])" % (
                 enc_mol(rec), enc_gr(g), "; ".join("run_molgraph m %s %s" % (cbool(d), cbool(u)) for d, u in _MG_CFGS))
         if k == "parse":
             return "run_parse %s" % enc_rec(case["rec"])
@@ -1166,10 +1168,29 @@ def _molecule_like(G):
     return True
 
 
+def _xh_clauses(G, tag):
+    """has_XH / has_HH against an independent definition, on G and on G with every edge re-inserted in the other orientation"""
+    import networkx as nx
+    from synkit.Graph.Hyrogen._misc import has_XH, has_HH
+    fails = []
+    isH = {n: d.get("element") == "H" for n, d in G.nodes(data=True)}
+    want_xh = any(isH[u] != isH[v] for u, v in G.edges())
+    want_hh = any(isH[u] and isH[v] for u, v in G.edges())
+    F = nx.Graph()
+    F.add_nodes_from(reversed(list(G.nodes(data=True))))
+    F.add_edges_from((v, u, d) for u, v, d in G.edges(data=True))
+    for nm, X in (("as given", G), ("node order reversed, edges inserted the other way round", F)):
+        if bool(has_XH(X)) != want_xh:
+            fails.append(_fail("has_XH", "%s (%s): has_XH = %r, but %s heavy-hydrogen bond" % (tag, nm, has_XH(X), "there is a" if want_xh else "there is no")))
+        if bool(has_HH(X)) != want_hh:
+            fails.append(_fail("has_HH", "%s (%s): has_HH = %r, but %s hydrogen-hydrogen bond" % (tag, nm, has_HH(X), "there is a" if want_hh else "there is no")))
+    return fails
+
+
 def _h_clauses(G, tag):
     """hydrogen clauses of the property on graph G (graph level, no RDKit)."""
     from synkit.Graph.Hyrogen._misc import h_to_explicit, h_to_implicit
-    fails = []
+    fails = _xh_clauses(G, tag)
     if not _molecule_like(G):
         return fails
     e = h_to_explicit(G, None)
@@ -1447,6 +1468,8 @@ def oracle(case):
                     fails.append(_fail("gml-label", "element %r charge %d is written %r and read back as %r"
                                        % (el, c, el + NXToGML._charge_to_string(c), got)))
         return fails[:3]
+    if k == "hx" and not _molecule_like(to_nx(case["g"])):
+        return _xh_clauses(to_nx(case["g"]), case.get("name", "graph"))[:3]
     if k == "hx":
         if case["nodes"] is None and not case["its"] and all("typesGH" not in a for _, a in case["g"]["nodes"]):
             return _h_clauses(to_nx(case["g"]), case.get("name", "graph"))[:3]
@@ -1512,6 +1535,8 @@ def distribution(cases, obss):
             d["charged_labels"] += sum(1 for x in c["charges"] if x)
         if k == "mol" and isinstance(o, list) and len(o) == 3:
             d["rdmol_ok"] = d.get("rdmol_ok", 0) + (1 if o[2] else 0)
+            o = o[0]
+        if k in ("hx", "mol") and isinstance(o, list) and len(o) == 5:
             o = o[0]
         if k in ("hx", "mol") and isinstance(o, list) and len(o) == 4:
             d["h_dom"][str(bool(o[0][4]))] = d["h_dom"].get(str(bool(o[0][4])), 0) + 1
